@@ -491,7 +491,7 @@ func restart(cfg fw.Config, rec *fw.Rec, i int) {
 	if m == nil {
 		return
 	}
-	n := 1 + r.Intn(3)
+	n := 2 + r.Intn(2)
 	ids := []string{"a", "b", "c"}
 	for k := 0; k < n; k++ {
 		m.make(ids[k], time.Duration(120+r.Intn(80))*time.Millisecond, "before_restart")
@@ -559,8 +559,27 @@ func restart(cfg fw.Config, rec *fw.Rec, i int) {
 		return
 	}
 	rec.Eval(1)
+	// in half of the scenarios one resumed timer is cancelled: the others must be unaffected
+	if i%2 == 0 && len(persisted) >= 2 {
+		for id := range persisted {
+			m2.cancel(id, "after_restart", false)
+			if m2.recs[persisted[id]].state == "cancelled" {
+				delete(persisted, id)
+				rec.Bucket("resumed_timer_cancelled_after_restart")
+			}
+			break
+		}
+	}
 	// every restored timer fires exactly once on the new crew, none on the old one
 	m2.pump(30*time.Second, func() bool { return !m2.shortPending() })
+	if !m2.bad && m2.shortPending() {
+		for _, rr := range m2.recs {
+			if rr.state == "pending" && rr.delay < time.Second {
+				m2.violation("restored-timer-never-fired", fmt.Sprintf("timer %s (%s) persisted before the restart has not fired 30 s after it was due", rr.id, rr.uid))
+				return
+			}
+		}
+	}
 	select {
 	case <-oldIn:
 		m2.violation("fired-on-old-crew", "after the restart a timer fired on the old crew")
@@ -588,7 +607,7 @@ func restart(cfg fw.Config, rec *fw.Rec, i int) {
 func Run(cfg fw.Config, rec *fw.Rec) {
 	log.SetOutput(io.Discard)
 	rec.Rule = "sio timers through a real Crew whose input channel the harness owns (the harness plays the crew loop; results are serialised by a consumer goroutine as Stdio does): scenarios of 4-18 steps over ids {x,y}: make (2-16 ms, or 10 s), cancel, receive for a while, stop receiving so that due timers block inside the emitter and then cancel / re-create the blocked id, quiesce; per timer: fired at most once, not before clock-before-request + delay, not after an acknowledged cancel that preceded its due time; at quiescent points the reported timers state (after a flush message) and the live machine state must equal accepted - fired - cancelled ('accepted' = reported pending right after the request); restart: timers persisted as JSON resume on a new crew, fire exactly once there and never on the old crew; under -race; non-trivial = scenario in which a timer fired; distinct by scenario"
-	rec.Required = []string{"fired", "accepted", "cancelled", "quiescent_points_compared", "phases_with_blocked_firing", "make_while_a_firing_is_blocked", "restart_scenarios", "timers_resumed_after_restart"}
+	rec.Required = []string{"fired", "accepted", "cancelled", "quiescent_points_compared", "phases_with_blocked_firing", "make_while_a_firing_is_blocked", "restart_scenarios", "timers_resumed_after_restart", "resumed_timer_cancelled_after_restart"}
 	rec.Assume = []string{"a cancel acknowledged after the timer's due time overlaps its firing (the goroutine may already be blocked in the emitter): either outcome accepted", "requests the timers machine does not accept (duplicate pending id; requests after a failed cancel) are counted, not judged", "bounded progress: 30 s"}
 	n := cfg.Pick(150, 2000)
 	fw.Parallel(6, n, func(w, i int) { scenario(cfg, rec, i) })
